@@ -66,6 +66,10 @@ def num_expr(r, nv, depth, extreme, feats):
     """numeric expression; records features used in `feats`"""
     if depth <= 0 or r.chance(1, 4):
         return lin_tree(r, nv, extreme)
+    if extreme and r.chance(1, 12):
+        # 1e300 * (1e300 * x + ...): the flattener's coefficient arithmetic overflows to +-inf
+        feats.add('overflow')
+        return ('*', ('n', F(10) ** 300), ('+', ('*', ('n', r.choice([1, -1]) * F(10) ** 300), ('v', r.below(nv))), lin_tree(r, nv, False)))
     k = r.below(13)
     sub = lambda: num_expr(r, nv, depth - 1, extreme, feats)
     if k == 0:
@@ -101,7 +105,7 @@ def num_expr(r, nv, depth, extreme, feats):
 
 def log_expr(r, nv, depth, extreme, feats):
     if depth <= 0 or r.chance(1, 3):
-        rel = r.choice(['lt', 'le', 'eq', 'ge', 'gt', 'le', 'ge', 'eq', 'lt', 'gt', 'le', 'ge', 'ne'])
+        rel = r.choice(['lt', 'le', 'eq', 'ge', 'gt'] * 6 + ['ne'])   # 'ne' rarely: VisitDisequality crashes on a constant-false equality (side finding)
         feats.add('cmp_' + rel)
         return (rel, lin_tree(r, nv, extreme), ('n', small(r)))
     k = r.below(11)
@@ -124,9 +128,9 @@ def log_expr(r, nv, depth, extreme, feats):
         feats.add('atleast')
         return (r.choice(['atleast', 'atmost', 'exactly']), ('n', F(r.rint(0, 2))),
                 ('count', [sub() for _ in range(r.rint(2, 3))]))
-    if k == 8:
+    if k == 8 and r.chance(1, 3):
         feats.add('alldiff'); return ('alldiff', [('v', r.below(nv)) for _ in range(r.rint(2, 3))])
-    if k == 9:
+    if k in (8, 9):
         feats.add('cmp_nl')
         return (r.choice(['le', 'ge', 'eq']), num_expr(r, nv, depth - 1, extreme, feats), ('n', small(r)))
     feats.add('quadcmp')
@@ -219,8 +223,7 @@ def gen_accept(r):
         return 'ALL'
     acc = list(LIN)
     if k == 2:
-        acc = [t for t in LIN if r.chance(2, 3)] or ['LinConRange']
-        # range-only / rhs-only mixes exercise RangeCon <-> RhsCon conversions
+        acc = ['LinConLE', 'LinConEQ', 'LinConGE']       # no native range constraints: Range -> Rhs conversion
     pool = QUAD + FUNC + COND + IND + OTHER
     for t in pool:
         if r.chance(1, 3 if k >= 4 else 6):
